@@ -341,7 +341,14 @@ def r17_use_tag_verbatim(c, facts, rule='C05.R17'):
         for x, ct, _ in sl['calls']:
             dty = fn.mir['locals'][ct['dest']['l']]['ty'] if isinstance(ct.get('dest'), dict) and 'l' in ct['dest'] else ''
             if re.search(r'\btag::Tag\b', dty) and not any(P.strip(x).endswith(a) for a in ALLOW):
-                odd.append(P.strip(x).split('::', 1)[-1])
+                # only a producer the definition's tag passes *through* (another arm of the same `let tag = match ..` that
+                # builds the tag of a literal is not on the way from the definition to the use)
+                through = False
+                for a in ct['args']:
+                    if 'l' in a and any(P.strip(y).endswith(('get_tag', 'Internal::tag')) for y, _, _ in MF.slice_back(fn, a['l'], idx)['calls']):
+                        through = True
+                if through:
+                    odd.append(P.strip(x).split('::', 1)[-1])
         inst = {'fn': 'inference::tag', 'tag_producers': sorted({P.strip(x).split('::')[-1] for x, ct, _ in sl['calls'] if isinstance(ct.get('dest'), dict) and 'l' in ct['dest'] and re.search(r'\btag::Tag\b', fn.mir['locals'][ct['dest']['l']]['ty'])})}
         if odd:
             c.bad(R, 'use-tag-transformed:%s' % ','.join(sorted(set(odd))), 'inference::tag passes the tag of a definition through %s before giving it to a use: the use is typed differently from its definition (for some definitions only), so moving a declaration changes the verdict' % sorted(set(odd)), **inst)
